@@ -827,14 +827,24 @@ def is_filed(v):
     return isinstance(v, str) and len(v) >= SETTINGS['disk_min_file_size']
 
 
-def one_case(ctx, res, stats, programs, setup, schedule, mode, label, driver='thread', expect=None, record=True):
+class SharedDirDisk(diskcache.Disk):
+    """A Disk with its own file layout (the documented way to customise it): every value file lives in ONE sub-directory, so the
+    creation of a file by one client and the pruning of the momentarily empty directory by another client's removal can meet."""
+
+    def filename(self, key=diskcache.UNKNOWN, value=diskcache.UNKNOWN):
+        name = os.path.join('shared', os.urandom(8).hex() + '.val')
+        return name, os.path.join(self._directory, name)
+
+
+def one_case(ctx, res, stats, programs, setup, schedule, mode, label, driver='thread', expect=None, record=True, settings=None):
+    settings = settings or SETTINGS
     if driver == 'process':
-        r = concdrv.run_processes(ctx, programs, schedule, settings=SETTINGS, setup=setup, max_steps=6000, sleep_advances=False)
+        r = concdrv.run_processes(ctx, programs, schedule, settings=settings, setup=setup, max_steps=6000, sleep_advances=False)
     else:
         # (the clock is frozen: a handle opened while another client holds the lock retries its settings statements with sleeps)
-        r = concdrv.run_program(ctx, programs, schedule, mode=mode, settings=SETTINGS, setup=setup, max_steps=6000, sleep_advances=False)
+        r = concdrv.run_program(ctx, programs, schedule, mode=mode, settings=settings, setup=setup, max_steps=6000, sleep_advances=False)
     case = {'check': 'schedule', 'label': label, 'programs': programs, 'setup': setup, 'schedule': r['schedule_used'], 'mode': mode,
-            'driver': driver, 'settings': SETTINGS, 'expect': expect}
+            'driver': driver, 'settings': {k: (v if not isinstance(v, type) else v.__name__) for k, v in settings.items()}, 'expect': expect}
     stats['runs'] += 1
     stats['by_mode'][driver + ':' + mode] = stats['by_mode'].get(driver + ':' + mode, 0) + 1
     stats['by_clients'][str(len(programs))] = stats['by_clients'].get(str(len(programs)), 0) + 1
@@ -903,6 +913,18 @@ def run_corpus(ctx, res, stats, per_program, exhaustive_limit):
     before = stats['anomalies']
     one_case(ctx, res, stats, programs, setup, D12_SCHEDULE, 'own', 'corpus:D12-schedule', expect=expect)
     stats['d12_schedule_anomaly_seen'] = stats['anomalies'] > before
+    # a value file is created in a sub-directory that another client's removal prunes at that very moment (all files of this Disk share
+    # one sub-directory): the store must still succeed (Disk._write creates the directory again and retries)
+    settings = dict(SETTINGS, disk=SharedDirDisk)
+    for wr in ('set', 'add'):
+        programs = [[{'op': wr, 'key': 'a', 'value': BIG1, 'retry': True}, {'op': 'get', 'key': 'a'}],
+                    [{'op': 'delete', 'key': 'b', 'retry': True}, {'op': 'get', 'key': 'a'}]]
+        setup = [{'op': 'set', 'key': 'b', 'value': BIG2}]
+        seqs = concdrv.solo_events(ctx, programs, settings=settings, setup=setup)
+        for i in range(0, len(seqs[0]) + 1):
+            one_case(ctx, res, stats, programs, setup, [0] * i + [1] * 200 + [0] * 200, 'own', 'corpus:dir-race:%s:%d' % (wr, i), record=False, settings=settings)
+            if enough(res):
+                return
     # lookups and writes made from inside the body of `for key in cache:` while another client completes writes in between
     for how in ('iter', 'reversed', 'iterkeys'):
         programs = [[{'op': 'iter_open', 'n': 1, 'how': how}, {'op': 'get', 'key': 'x'}, {'op': 'get', 'key': 'big'}, {'op': 'contains', 'key': 'c'},
